@@ -384,7 +384,8 @@ class SimpleComparison(Comparison):
                 if not self.right.small_constant:
                     self.src, r_long = exitStack.enter_context(
                         self.right.calculate(
-                            None, self.left.signed and l_long or None))
+                            None, (self.left.signed or self.right.signed)
+                            and l_long or None))
                 else:
                     r_long = False
                 self.opcode = self.opcode[negative]
